@@ -3,6 +3,8 @@
 package cl
 
 import (
+	"strings"
+
 	"github.com/ohler55/slip"
 )
 
@@ -88,5 +90,5 @@ func (f *Intern) Call(s *slip.Scope, args slip.List, depth int) (result slip.Obj
 	default:
 		status = slip.Symbol(":inherited")
 	}
-	return slip.Values{slip.Symbol(so), status}
+	return slip.Values{slip.Symbol(strings.ToLower(string(so))), status}
 }
